@@ -5,6 +5,7 @@ import OmplModel.Proofs.CopyCsd
 import OmplModel.Proofs.CopyCommon
 import OmplModel.Proofs.CopyWcFix
 import OmplModel.Proofs.CopySig
+import OmplModel.Proofs.CopyWrapNames
 /-!
 C09 — copies and persisted data reproduce states and planner graphs exactly.
 
@@ -189,6 +190,28 @@ theorem copyStateData_names_transfers {D S : Sp} {d s : St} (ctx : CopyCtx D S s
     (∀ q, (∀ n ∈ names, nameFound D S n = true → ∀ dc, findSub (substateLocs D) n = some dc → Incomp dc q) →
       (csdNames D d S s names).1.sub q = d.sub q) :=
   csdNames_state ctx hd names hnn
+
+/-- substate addressing through top-level wrappers (the model side of F105's proposed repair: `getSubstateAtLocation`
+unwraps the wrapper's state): the names overload transfers exactly the named substates of the *wrapped* states, the result
+fits the wrapper space, the result code is that of the copy between the wrapped spaces; without a top-level wrapper it is
+`csdNames` itself -/
+theorem copyStateData_names_through_wrappers {D S : Sp} {d s : St}
+    (ctx : CopyCtx D.unwrap S.unwrap (St.unwrapAs S s)) (hd : fits D d = true) (names : List Nat)
+    (hnn : NonNested D.unwrap S.unwrap names) :
+    fits D (csdNamesW D d S s names).1 = true ∧
+    (∀ n ∈ names, ∀ dc sc, findSub (substateLocs D) n = some dc → findSub (substateLocs S) n = some sc →
+      (St.unwrapAs D (csdNamesW D d S s names).1).sub dc = (St.unwrapAs S s).sub sc) ∧
+    (∀ q, (∀ n ∈ names, nameFound D.unwrap S.unwrap n = true → ∀ dc, findSub (substateLocs D) n = some dc → Incomp dc q) →
+      (St.unwrapAs D (csdNamesW D d S s names).1).sub q = (St.unwrapAs D d).sub q) ∧
+    (csdNamesW D d S s names).2 = (csdNames D.unwrap (St.unwrapAs D d) S.unwrap (St.unwrapAs S s) names).2 ∧
+    ((∀ nm x, D ≠ .wrapper nm x) → (∀ nm x, S ≠ .wrapper nm x) → csdNamesW D d S s names = csdNames D d S s names) :=
+  let h := csdNamesW_state ctx hd names hnn
+  ⟨h.1, h.2.1, h.2.2.1, h.2.2.2, fun hD hS => csdNamesW_eq hD hS d s names⟩
+
+/-- Wrapper(SE2-like) ← Wrapper(SE2-like), names `[3]` (the R2 part): only that part of the wrapped state changes -/
+example : csdNamesW (.wrapper 1 (.compound 2 [.real 3 2, .so2 4])) (.wrap (.comp [.leaf [.f64 0, .f64 0], .leaf [.f64 9]]))
+    (.wrapper 1 (.compound 2 [.real 3 2, .so2 4])) (.wrap (.comp [.leaf [.f64 5, .f64 6], .leaf [.f64 7]])) [3]
+    = (.wrap (.comp [.leaf [.f64 5, .f64 6], .leaf [.f64 9]]), .all) := by rfl
 
 /-- `getCommonSubspaces`: every returned space is a node of the destination whose name is a key of both maps; every
 common name is returned or covered by a returned space (**no common subspace is lost**, whatever its dimension); no
